@@ -278,6 +278,21 @@ func (x *fnExec) ctx(st *State) *EvalCtx {
 			}
 		}
 	}
+	// $i<N> / $visited<N>: loop counters and visited sets of the loops whose state exists on this path
+	for _, l2 := range x.loops {
+		for _, in := range l2.head.Instrs {
+			if phi, ok := in.(*ssa.Phi); ok && phi.Comment == "rangeindex" {
+				if t, ok := st.vals[phi]; ok {
+					vars[fmt.Sprintf("$i%d", l2.ordinal)] = mkTerm("(+ "+t.S+" 1)", sInt, types.Typ[types.Int])
+				}
+			}
+			if nx, ok := in.(*ssa.Next); ok {
+				if it, ok := st.iters[nx.Iter]; ok && it.Kind == "map" {
+					vars[fmt.Sprintf("$visited%d", l2.ordinal)] = mkTerm(it.Visited, arrSort(it.KSort, sBool), nil)
+				}
+			}
+		}
+	}
 	return &EvalCtx{v: x.v, pkg: x.pkg, vars: vars, st: st}
 }
 
